@@ -78,9 +78,9 @@ def leniency_pair_rule(ctx, r):
     p = ctx.p
     n_pairs = 0
     for fi in p.all_functions():
-        if fi.module.name.startswith(("clikit.api.config", "clikit.config")):
-            continue
         for c in q.method_calls(fi, "enable_lenient_args_parsing"):
+            if isinstance(c.func.value, ast.Name) and c.func.value.id == "self" and fi.module.name.startswith(("clikit.api.config", "clikit.config")):
+                continue  # a configuration object setting its own (permanent) mode, e.g. in configure()
             n_pairs += 1
             ok, why = pair_on_all_exits(ctx, fi, c, "disable_lenient_args_parsing")
             if ok:
@@ -261,6 +261,81 @@ def run(ctx):
             r.ok("%s: writes only the I/O objects it creates" % m.short)
     if n12 == 0:
         r.vacuous_ok = True
+    # ---------------------------------------------------------------- R14
+    r = ctx.rule("C17-R14", "ORDER", "'creating a predefined object twice yields the same characters': a lazily created shared object is published in its class slot only when it is "
+                 "complete - after the store into the slot the factory does not go on setting the object's attributes (a second caller, or a caller arriving after an interrupted "
+                 "first creation, would receive it half-built)", reference=3)
+    n14 = 0
+    for fi in sorted(p.all_functions(), key=lambda f: f.qualname):
+        if fi.cls is None:
+            continue
+        fcfg = None
+        for n in walk_no_nested(fi.node):
+            if not isinstance(n, ast.Assign):
+                continue
+            slots_ = [t for t in n.targets if isinstance(t, ast.Attribute) and isinstance(t.value, ast.Name) and t.value.id in ("cls", fi.cls.name) and t.attr in fi.cls.attrs]
+            if not slots_:
+                continue
+            # the object being published: a local named on the right (or beside the slot in a chained assignment)
+            objs_ = [t.id for t in n.targets if isinstance(t, ast.Name)] + ([n.value.id] if isinstance(n.value, ast.Name) else [])
+            n14 += 1
+            fcfg = fcfg or ctx.cfg(fi)
+            pub = fcfg.node_of(n)
+            late = None
+            for o in objs_:
+                for w in fcfg.nodes:
+                    if w.kind == "stmt" and isinstance(w.ast, (ast.Assign, ast.AugAssign)) and w.id != pub.id and w.id in fcfg.reach_strict(pub.id):
+                        tg = w.ast.targets if isinstance(w.ast, ast.Assign) else [w.ast.target]
+                        if any(isinstance(t, (ast.Attribute, ast.Subscript)) and isinstance(getattr(t, "value", None), ast.Name) and t.value.id == o for t in tg):
+                            late = (o, w)
+                            break
+                if late:
+                    break
+            if late:
+                r.fail(fi, n, "%s published before it is complete" % norm(slots_[0]), "%s stores the new object in %s and only then sets it up (`%s` ...): whoever reads the slot in between - a second "
+                       "thread, or the next caller after an interrupt during the first creation - gets an object with the constructor's defaults (another border style)" % (fi.short, norm(slots_[0]), norm(late[1].ast)[:40]))
+            else:
+                r.ok("%s: %s is stored when the object is complete" % (fi.short, norm(slots_[0])))
+    if n14 == 0:
+        r.vacuous_ok = True
+
+    # ---------------------------------------------------------------- R15
+    r = ctx.rule("C17-R15", "OWNER", "'creating a predefined object': what a constructor hands to every new instance is new - a class-level (or module-level) container does not hold "
+                 "instances of the package's mutable classes (each application's style set has Style objects of its own; changing one in place changes no other application)", reference=0)
+    mutable_cls = {}
+
+    def is_mutable(ci_):
+        if ci_.qualname not in mutable_cls:
+            mutable_cls[ci_.qualname] = any(q.writes_to_self_attr(m_, None) if False else any(is_self_attr(x) and isinstance(getattr(x, "ctx", None), ast.Store) for x in walk_no_nested(m_.node))
+                                            for nm_, m_ in ci_.methods.items() if nm_ != "__init__")
+        return mutable_cls[ci_.qualname]
+
+    n15 = 0
+    holders = [(ci.module, ci.qualname + "." + nm_, v_, ci) for ci in p.classes.values() for nm_, v_ in ci.attrs.items()] + [(m_, m_.name + "." + nm_, v_, None) for m_ in p.modules.values() for nm_, v_ in m_.assigns.items()]
+    for mod, slot, val, ci in sorted(holders, key=lambda h: h[1]):
+        if not isinstance(val, (ast.List, ast.Tuple, ast.Dict, ast.Set)):
+            continue
+        elems = list(val.values) if isinstance(val, ast.Dict) else list(val.elts)
+        bad = None
+        for e in elems:
+            b = e
+            while isinstance(b, ast.Call) and isinstance(b.func, ast.Attribute):
+                b = b.func.value  # Style("x").fg("green").bold(): the object is the innermost call
+            if isinstance(b, ast.Call) and isinstance(b.func, ast.Name):
+                rc_ = p.resolve_global(mod.name, b.func.id)
+                if isinstance(rc_, ClassInfo) and is_mutable(rc_):
+                    bad = (e, rc_)
+                    break
+        if bad is None:
+            continue
+        n15 += 1
+        owner = ci if ci is not None else mod
+        r.fail(owner, val, "%s holds %s instances" % (slot.split("clikit.", 1)[-1], bad[1].name), "%s is created once, when the module is imported, and holds %s objects, which have setters: every object built "
+               "from it shares them - customising one application's %s in place changes every other and every later-built application" % (slot.split("clikit.", 1)[-1], bad[1].name, bad[1].name.lower()))
+    if n15 == 0:
+        r.vacuous_ok = True
+        r.note("no class- or module-level container holds instances of a mutable class of the package")
+
     # ---------------------------------------------------------------- R13
     r = ctx.rule("C17-R13", "OWNER", "'creating a predefined object / rendering twice': an object created once at import time (a module-level instance) is shared by every caller and "
                  "every thread - no function configures it per call (attribute store, item store, mutating method); per-call settings belong to a per-call object", reference=0)
